@@ -193,11 +193,16 @@ TextFails(e) ==
       reservedUse == ReservedUse(ts)
       oddCase == OddCaseKeyword(ts)
       allowedC == IF pr.ok /\ cond THEN CondOut(pr.ast, e.item, e.names, e.values) ELSE {}
+      \* beyond 700 bytes the judge does not lex the string (its recursive lexer and parser cost minutes per string there): such
+      \* strings, which only the random channel produces, are judged for totality - no crash, no hang, no panic other than the
+      \* documented one - and the real code still has to digest all of their bytes
+      long == Len(e.text) > 700
   IN
   UNION { LET out == e.r[ch]
               direct == ch = "lang"
               isErr == out.o = "E" \/ (out.o = "panic_syntax" /\ ~direct)
           IN IF out.o \in {"crash", "timeout"} \/ (out.o = "panic_syntax" /\ direct) THEN { ch \o ".NoCrash" }
+             ELSE IF long THEN {}
              ELSE IF ~pr.ok THEN (IF strict /\ ~isErr THEN { ch \o ".Accepted" } ELSE {})
              ELSE IF ~placeholdersOK /\ ~direct THEN (IF strict /\ ~isErr THEN { ch \o ".Placeholders" } ELSE {})
              ELSE IF fnAsAttr THEN {}
